@@ -32,8 +32,13 @@ def run(eng, R):
     R.ob("H-ndf", "MultiFit.data_size", "np.sum(_data_sizes)" in txt and "_fit.data_size for _fit in self._fits" in txt, (f.file, f.lineno), "MultiFit.data_size must sum the data sizes of all members")
 
     # ---- chi2 probability
-    check(eng, R, "H-prob", "CostFunction", "chi2_probability", "return", "ifelse(cond(self.is_chi2), 1.0 - chi2.cdf(cost_function_value, ndf), None)",
+    # path-sensitive: a conditional expression and an early `return None` for non-chi2 cost functions are the same thing
+    check(eng, R, "H-prob", "CostFunction", "chi2_probability", "result", "1.0 - chi2.cdf(cost_function_value, ndf)", when="(self.is_chi2)", known=["self.is_chi2", "cost_function_value", "ndf", "()chi2.cdf"],
           what="chi2 probability must be the upper tail 1 - CDF_chi2(ndf)(cost)")
+    from .formulas import extract as _extract
+    _cp = get_func(p, "CostFunction", "chi2_probability")
+    _none_forms = [x.canon() for _, x, _ in _extract(_cp, "result", None, "not (self.is_chi2)", node=eng.cnode(_cp))]   # (no explicit return on that path = None)
+    R.ob("H-prob", "CostFunction.chi2_probability:not a chi2", all(x == "None" for x in _none_forms), (_cp.file, _cp.lineno), "no chi2 probability for a cost function that is not a chi2 (found %s)" % _none_forms)
     for cname in ("FitBase", "MultiFit"):
         f = get_func(p, cname, "chi2_probability")
         # every subtraction of a graph node's value (`<cost> -= <x>._nexus.get(...).value`), whatever the accumulator is called
@@ -89,8 +94,9 @@ def run(eng, R):
     R.ob("H-gof", "CostFunction_GaussApproximation.goodness_of_fit", ok, (ga.file, ga.lineno),
          "the Gaussian-approximation gof must switch its determinant flag off for the evaluation and restore the saved value afterwards")
     fb = get_func(p, "FitBase", "goodness_of_fit")
-    src = ast.unparse(fb.node)
-    R.ob("H-gof", "FitBase.goodness_of_fit", "is_diagonal(self.total_cov_mat)" in src and "_cost_function.goodness_of_fit(*[self._nexus.get(_node_name).value for _node_name in _cost_function.arg_names])" in src,
+    src = eng.csrc(fb)
+    R.ob("H-gof", "FitBase.goodness_of_fit", src.all_like("_c = self._cost_function_pointwise if self._cost_function_pointwise is not None and is_diagonal(self.total_cov_mat) else self._cost_function",
+                                                          "return _c.goodness_of_fit(*[self._nexus.get(_n).value for _n in _c.arg_names])"),
          (fb.file, fb.lineno), "FitBase.goodness_of_fit must evaluate the selected cost function's gof on the values of its own argument nodes")
 
     # the pointwise twin may stand in for the covariance cost only for an exactly diagonal matrix (any tolerance drops small correlations from the gof)
@@ -105,7 +111,9 @@ def run(eng, R):
     src = ast.unparse(mg.node)
     ok = "_gof_sum += _gof" in src and "for _fit in self._fits" in src and "_gof_sum += self._shared_cost_function.goodness_of_fit" in src \
         and "if self._shared_error_nodes_initialized and _fit._cost_function.is_chi2:\n        continue" in src.replace("    ", " " * 4).replace("            continue", "        continue")
-    R.ob("F4", "MultiFit.goodness_of_fit", "_gof_sum += _gof" in src and "for _fit in self._fits" in src and "_gof_sum += self._shared_cost_function.goodness_of_fit" in src and "self._shared_error_nodes_initialized and _fit._cost_function.is_chi2" in src,
+    msrc = eng.csrc(mg)
+    R.ob("F4", "MultiFit.goodness_of_fit", msrc.all_like("for _m in self._fits: if self._shared_error_nodes_initialized and _m._cost_function.is_chi2:", "_g = _m.goodness_of_fit if _g is None: return None _s += _g",
+                                                          "if self._shared_error_nodes_initialized: _s += self._shared_cost_function.goodness_of_fit(", "return _s"),
          (mg.file, mg.lineno), "MultiFit.goodness_of_fit must sum the members' gof (chi2 members once through the shared cost when errors are shared)")
     # constraint terms of the multi-fit gof: the multi fit's own constraints, and - for members whose residuals moved into the shared cost - the members' constraints
     def adds_constraints(node, owner):
